@@ -133,7 +133,7 @@ template <class C> struct Explorer {
 
 static std::vector<Str> initial_states(int size) {
     std::vector<Str> v = shape_list(0); std::set<Str> seen(v.begin(), v.end());
-    std::vector<Str> tok = { "", ".", "..", "a", "c:d", "%2e", "A%41" };
+    std::vector<Str> tok = { "", ".", "..", "a", "c:d", "1:e", ":", "%2e", "A%41" };
     int n = size == 0 ? 1 : size == 1 ? 2 : 3;
     std::vector<Str> rl = path_token_paths(tok, n, 0), ab = path_token_paths(tok, n, 1);
     auto add = [&](const Str &s) { if (ref::is_uri_reference(s) && seen.insert(s).second) v.push_back(s); };
